@@ -7,12 +7,14 @@ package fan
 // init$reset.go$1 is the first literal in reset.go.
 
 //@ opaque func getFan
+//@   params (id)
 //@   returns (fan, err)
 //@   ensures err == nil ==> fans.fanWF(fan)
 //@   modifies nothing
 //@   trusted "reads and validates the configuration and builds the fan object (fans.NewFan); does not open the database"
 
 //@ func init$reset.go$1
+//@   params (cmd, args)
 //@   props C15
 //@   requires persistence.dbWF()
 //@   atcall[C15.reset] Success: !dbHas["fans"][persistence.fanId(fan)] && !dbHas["fanPwmMap"][persistence.fanId(fan)]
@@ -23,6 +25,7 @@ package fan
 //@   trusted "registers sensors, curves and fans from the configuration in the package-level registries; creates new objects only, does not open the database"
 
 //@ func init$init.go$1
+//@   params (cmd, args)
 //@   props C15
 //@   requires persistence.dbWF()
 //@   atcall[C15.init] RunInitializationSequence: !dbHas["fans"][persistence.fanId(fan)] && !dbHas["fanPwmMap"][persistence.fanId(fan)]
